@@ -210,7 +210,9 @@ PROPS["C01"] = dict(
               "up to 4 levels over {a,b,c,empty,+,#}, one filter at a time; (2) sets of 2-12 filters (tree and SubscriptionsState.ByPattern) x all "
               "339 topics, plus deep/UTF-8 topics — the answer for a set must be the union of the single answers; (3) subscribe/unsubscribe/"
               "re-subscribe/DeleteSession histories on a real distributed.State versus a state built directly from the final active set. "
-              "(4) end to end through a running in-process broker (e2e_test.go, when present in the run plan). (5) digest collisions: pairs of topic "
+              "(4) end to end through a running in-process broker (e2e_test.go): scripts of connect / multi-filter SUBSCRIBE / UNSUBSCRIBE / PUBLISH / a "
+              "subscriber that stops reading / an operator removing one subscription through the node's DeleteSubscription RPC (the session then often "
+              "asks for the same filter again, at the same or another QoS) on 1-2 nodes, delivery multiset per client after every step. (5) digest collisions: pairs of topic "
               "names that collide under the usual 32-bit hash functions (fnv32/32a, crc32, adler32, folded fnv64a; with and without the mount-point "
               "prefix) are published alternately between subscription changes: each publish must reach the subscriber of its own topic only."),
         note="Trusted: Go toolchain, rapid, the 15-line reference matcher (unit-tested on the MQTT 3.1.1 section 4.7 examples). Filters are valid MQTT filters; '$'-topics are not special-cased; topics contain no wildcard characters.",
@@ -242,7 +244,7 @@ PROPS["C02"] = dict(
     level="exploration",
     manifest=dict(
         text=("End-to-end on one complete in-process broker node with a real commit log on disk: generated publish sequences (1-60 messages, QoS "
-              "0/1/2 mix, payload sizes 0/8/100/70000, 1-3 publishers, 1-3 subscribers with matching and non-matching filters) starting from an "
+              "0/1/2 mix, payload sizes 0/8/100/70000, sizes that put the delivered packet on a boundary of the remaining-length encoding (127/128, 16383/16384, 2097151/2097152, each -1/0/+1) and, rarely, 1-4 MiB; whenever the broker hands a connection less than a whole packet in one write the client asks for something (PINGREQ) before the rest follows, so that the answer of another broker goroutine lands in between if nothing prevents it; 1-3 publishers, 1-3 subscribers with matching and non-matching filters) starting from an "
               "empty log or one pre-filled to just below/above the batch (10), segment (500) and truncation (1500/2000/3000) boundaries, with or "
               "without a consumer offset file; plus fixed long histories (1100, thorough 2300 messages) that cross those boundaries by themselves. "
               "Oracle: every publish acknowledged to its publisher reached every subscriber with a matching filter, topic and payload intact; nothing "
@@ -427,17 +429,22 @@ PROPS["C03"] = dict(
               "the PUBREL). Generated scripts: send, acknowledge the k-th open exchange or an unknown identifier with PUBACK/PUBREC/PUBREL/PUBCOMP "
               "(right and wrong types), sweeps, session end. Oracle: model of every open exchange (identifier, phase); identifiers on the wire are "
               "non-zero and distinct among open exchanges; at the end all sessions are ended, everything expires and the writer's allocator is read "
-              "out: every identifier 1..65535 must be free again. One real-time case lets the broker's own 1 s ticker drive the sweep."),
+              "out: every identifier 1..65535 must be free again. One real-time case lets the broker's own 1 s ticker drive the sweep; three more "
+              "(run backlog) do so while the writer's delivery loop is blocked in a write to another, stalled QoS 0 session with jobs queued behind "
+              "it: the healthy session's PUBLISH / PUBREL must still be sent again (twice within 25 s). Messages are optionally padded so that the "
+              "delivered PUBLISH has a remaining length of exactly 127/128/129/16383/16384/16385."),
         note=_L3_NOTE + " The allocator is read through the verif hook wasp.VerifWriterMIDPool.",
         technique="stateful property-based testing with harness-owned expiry sweeps against a per-exchange model",
     ),
     rule=("a case = subscriber QoS list + step list (send / ack / early sweep / late sweep / end). Non-trivial = at least one retransmission was "
           "observed and (a QoS 2 exchange reached PUBREL or an acknowledgement of the wrong type / unknown identifier was injected). Distinct = distinct case."),
     assumptions=["sweeps are either before all pending deadlines or after all of them (deadlines of one case differ by milliseconds only; per-entry timing is C04's subject)",
-                 "ticker wiring: a retransmission must appear within 30 s of real time (nominal 3-4 s)"],
+                 "ticker wiring: a retransmission must appear within 30 s of real time (nominal 3-4 s); under a backlog two within 25 s (nominal 7-8 s)"],
     runs=[
         dict(name="regress", pkg="c03", run="TestRegress", timeout=300),
         dict(name="ticker", pkg="c03", run="TestTickerWiring", timeout=300),
+        # the broker's own ticker must keep sweeping while the delivery loop is blocked on another session (real time, ~8 s)
+        dict(name="backlog", pkg="c03", run="TestTickerUnderBacklog", timeout=300),
         dict(name="random", pkg="c03", run="TestRandom", checks=dict(quick=640, thorough=6000), shards=16, timeout=dict(quick=400, thorough=2400), shrinktime="90s"),
         # a table that refuses a re-registration loses the retransmission (package c04)
         dict(name="manyentries", pkg="c04", run="TestManyEntries", timeout=600),
